@@ -185,6 +185,25 @@ var noisyString = func() string {
 	return string(b)
 }()
 
+// embeddedFile: a complete, valid parquet file of its own (one required int64 column that no struct of the harness has, one row
+// group of three rows, written by the harness's writer), used as a STRING VALUE (token 997).  An outer file that stores the value
+// verbatim has a strict prefix that ends in a genuine footer, footer length and magic; the reader must refuse it all the same - it
+// is not the file it was asked to read (its columns are not the struct's).  (A value that is a complete EMPTY parquet file is not
+// used: the prefix that ends behind it is indistinguishable from a valid empty file for any reader that locates the footer from
+// the end.)
+var embeddedFile = func() string {
+	col := pq.Column{Path: []string{"zz_in_no_struct"}, Type: pq.TypeInt64, CType: -1, Reps: []int{pq.RepRequired}}
+	pg := pq.PageSpec{Reps: []uint8{0, 0, 0}, Defs: []uint8{0, 0, 0}, Values: []pq.Val{{Bits: 1}, {Bits: 2}, {Bits: 3}}}
+	spec := pq.FileSpec{FileOffset: "start", Schema: []pq.SchemaElem{{Name: "schema", Type: -1, CType: -1, Rep: -1, NumChildren: 1},
+		{Name: "zz_in_no_struct", Type: pq.TypeInt64, CType: -1, Rep: pq.RepRequired, NumChildren: -1}},
+		RowGroups: []pq.RGSpec{{NumRows: 3, Chunks: []pq.ChunkSpec{{Col: col, Codec: pq.CodecUncompressed, Pages: []pq.PageSpec{pg}}}}}}
+	b, err := pq.WriteFile(spec)
+	if err != nil {
+		panic("embedded file: " + err.Error())
+	}
+	return string(b)
+}()
+
 func poolVal(typ string, tok, poff int) interface{} {
 	p := pools[typ]
 	i := (tok + poff) % len(p)
@@ -236,6 +255,9 @@ func tokOfBits(typ string, bits uint64, bs []byte, poff int) int {
 	}
 	if typ == "string" && string(bs) == noisyString {
 		return 998
+	}
+	if typ == "string" && string(bs) == embeddedFile {
+		return 997
 	}
 	if typ == "string" && string(bs) == bigString {
 		return 999
@@ -314,6 +336,10 @@ func (c buildCtx) fillBase(v reflect.Value, a interface{}) {
 		}
 		if k == "string" && tok == 998 {
 			v.SetString(noisyString)
+			return
+		}
+		if k == "string" && tok == 997 {
+			v.SetString(embeddedFile)
 			return
 		}
 		v.Set(reflect.ValueOf(poolVal(k, tok, c.poff)).Convert(t))
